@@ -249,6 +249,10 @@ class Interp:
             return v.__render_with_namespace__(ns)
         if isinstance(v, ModelTemplate):
             return self.call_template(v, ns)
+        if isinstance(v, BaseException):
+            # exception objects (error_value; HTTP exceptions, which happen
+            # to be callable WSGI applications) are values, never called
+            return v
         if callable(v):
             return v()
         return v
